@@ -371,7 +371,7 @@ func (s *Solver) secondChance(obls []*Obligation) {
 			again = append(again, i)
 		}
 	}
-	if len(again) == 0 || len(again) > 40 {
+	if len(again) == 0 || len(again) > 16 {
 		return
 	}
 	r := &Solver{Dir: s.Dir, Timeout: s.Timeout * 3, Agreement: s.Agreement, Par: 3, Prelude: s.Prelude, QFPrelude: s.QFPrelude, Eng: s.Eng, Seed: s.Seed + 1, noRetry: true}
